@@ -16,6 +16,7 @@ import (
 	"go.sia.tech/core/consensus"
 	"go.sia.tech/core/types"
 	"go.sia.tech/coreutils/chain"
+	"verifharness/c02"
 	"verifharness/chainx"
 	"verifharness/vh"
 )
@@ -73,6 +74,19 @@ func encState(nd *chainx.Node) []byte {
 	return buf.Bytes()
 }
 
+// encStateNoAcc encodes the tip state without the element accumulator (whose leaf order is what
+// C02's known expiration-order finding perturbs).
+func encStateNoAcc(nd *chainx.Node) []byte {
+	var buf bytes.Buffer
+	e := types.NewEncoder(&buf)
+	cs := nd.CM.TipState()
+	n := cs.Elements.NumLeaves
+	cs.Elements = consensus.ElementAccumulator{NumLeaves: n}
+	cs.EncodeTo(e)
+	e.Flush()
+	return buf.Bytes()
+}
+
 // Submit calls AddBlocks, recovering a panic.
 func Submit(nd *chainx.Node, blocks []types.Block) (res string) {
 	defer func() {
@@ -90,7 +104,7 @@ func heavier(a, b *chainx.B) bool {
 }
 
 // Audit is the implementation-side oracle run after every submission.
-func Audit(c *vh.Case, t *chainx.Tree, nd *chainx.Node, res string, before string, beforeState []byte, beforeTip int, beforeN int) {
+func Audit(c *vh.Case, t *chainx.Tree, nd *chainx.Node, res string, before string, beforeState []byte, beforeTip int, beforeN int, tainted bool) {
 	tip := nd.CM.Tip()
 	tid, ok := t.Lookup(tip.ID)
 	if !ok {
@@ -153,7 +167,11 @@ func Audit(c *vh.Case, t *chainx.Tree, nd *chainx.Node, res string, before strin
 		if t.AllValid(tid) {
 			tw := t.Twin(tid)
 			if !bytes.Equal(encState(tw), encState(nd)) {
-				c.Oracle("tip-state-differs-from-linear-replay", "TipState at %d differs from the state of a node that only saw that chain", tid)
+				cls := "tip-state-differs-from-linear-replay"
+				if tainted && bytes.Equal(encStateNoAcc(tw), encStateNoAcc(nd)) {
+					cls = "exp-order-after-mid-list-revert"
+				}
+				c.Oracle(cls, "TipState at %d differs from the state of a node that only saw that chain", tid)
 			}
 		}
 	} else {
@@ -175,7 +193,7 @@ func Audit(c *vh.Case, t *chainx.Tree, nd *chainx.Node, res string, before strin
 func genCfg(r *vh.Run, rng *vh.RNG) chainx.GenCfg {
 	return chainx.GenCfg{
 		Main: 4 + rng.Intn(r.Pick(8, 14)), Forks: 1 + rng.Intn(3), MaxBranch: 3 + rng.Intn(r.Pick(6, 12)),
-		Kinds: chainx.BasicKinds, TxPerBlk: 2, Corrupt: rng.Intn(4), Extend: 3, Directed: rng.Chance(2, 3),
+		Kinds: chainx.AllKinds(), TxPerBlk: 2, Corrupt: rng.Intn(4), Extend: 3, Directed: rng.Chance(2, 3),
 	}
 }
 
@@ -226,6 +244,8 @@ func RunTree(r *vh.Run, name string, t *chainx.Tree, sched [][]int) {
 		c.Op(b.DeclLine(), "ok")
 	}
 	reorgs, failed, errs, nearTies := 0, 0, 0, 0
+	decls := c02.Declare(t, c02.NewIDs())
+	tainted := false
 	for bi, batch := range sched {
 		before := Observe(t, nd, "x")
 		beforeState := encState(nd)
@@ -258,8 +278,25 @@ func RunTree(r *vh.Run, name string, t *chainx.Tree, sched [][]int) {
 		if lb := t.Blocks[batch[len(batch)-1]]; lb.Work != nil && t.AllValid(lb.ID) && lb.Work.Cmp(t.Blocks[beforeTip].Work) > 0 && !heavier(lb, t.Blocks[beforeTip]) {
 			nearTies++
 		}
-		Audit(c, t, nd, res, before, beforeState, beforeTip, beforeN)
 		afterTip, _ := t.Lookup(nd.CM.Tip().ID)
+		// blocks reverted by this call: on a successful move the old branch, on a failed reorg
+		// (rolled back) the blocks between the tip and the fork point with the attempted target
+		target := afterTip
+		if res == "reorg-failed" {
+			target = batch[len(batch)-1]
+		}
+		if target != beforeTip && t.Blocks[target].Parent != chainx.OrphanParent {
+			anc := map[int]bool{0: true}
+			for x := target; x != 0 && x != chainx.OrphanParent; x = t.Blocks[x].Parent {
+				anc[x] = true
+			}
+			for x := beforeTip; !anc[x]; x = t.Blocks[x].Parent {
+				if d := decls[x]; d != nil && d.Unstable {
+					tainted = true
+				}
+			}
+		}
+		Audit(c, t, nd, res, before, beforeState, beforeTip, beforeN, tainted)
 		if afterTip != beforeTip {
 			// a reorg proper = the old tip is not an ancestor of the new one
 			anc := false
